@@ -33,6 +33,12 @@ type Noti struct {
 	Prefix  []gn.Elem   `json:"prefix,omitempty"`
 	Element bool        `json:"element,omitempty"` // deprecated string encoding for prefix and paths
 	Share   bool        `json:"share,omitempty"`   // reuse one prefix object (with spare capacity) for equal prefixes
+	// PathEnc: encoding of the update/delete paths when it differs from the prefix's: "elem"
+	// (structured), "element" (deprecated strings), "both" (structured plus stray deprecated
+	// strings, which every reader must ignore when elem is present); "" = as the prefix.
+	// PrefixBoth: the prefix carries stray deprecated strings next to its structured elements.
+	PathEnc    string `json:"path_enc,omitempty"`
+	PrefixBoth bool   `json:"prefix_both,omitempty"`
 	Updates []Upd       `json:"updates,omitempty"`
 	Deletes [][]gn.Elem `json:"deletes,omitempty"`
 	// Pick>0 re-addresses the first update (or, without updates, the first
@@ -204,6 +210,8 @@ func genNoti(t *rapid.T, thr int64, small bool) *Noti {
 	}
 	n.Element = rapid.IntRange(0, 6).Draw(t, "element") == 0
 	n.Share = rapid.IntRange(0, 3).Draw(t, "share") > 0
+	n.PathEnc = rapid.SampledFrom([]string{"", "", "", "", "", "", "elem", "element", "both"}).Draw(t, "pathenc")
+	n.PrefixBoth = rapid.IntRange(0, 9).Draw(t, "prefixboth") == 0
 	n.Prefix = genElems(t, 0, 2, false, small)
 	shape := rapid.IntRange(0, 9).Draw(t, "shape")
 	switch {
